@@ -56,9 +56,11 @@ KEY_ABS = "absolute-tolerance-gram-scaled"
 # literally says; disagreements with the library are then reported under KEY_ABS.  (VERIF_C08_ABS_SI=1 for experiments.)
 ABS_TOLERANCE_IS_SI = os.environ.get("VERIF_C08_ABS_SI", "") == "1"
 DEFAULT_REL = Fraction(1, 1000)
-mpmath.mp.dps = 50
-MARGIN_PART = mpmath.mpf(10)**-13
-MARGIN_B = mpmath.mpf(10)**-9
+# a private context: the library under test may use mpmath's global context, whose precision must stay untouched
+MPX = mpmath.mp.clone()
+MPX.dps = 50
+MARGIN_PART = MPX.mpf(10)**-13
+MARGIN_B = MPX.mpf(10)**-9
 
 # dimension classes: name -> list of unit expressions (all exact, rational factors)
 
@@ -127,7 +129,7 @@ def num_lib(m: Any) -> Any:
 
 
 def _mp(x: Fraction) -> Any:
-    return mpmath.mpf(x.numerator) / mpmath.mpf(x.denominator)
+    return MPX.mpf(x.numerator) / MPX.mpf(x.denominator)
 
 
 def _sym(x: Any) -> Fraction:
@@ -139,7 +141,7 @@ def _round_sig(x: Fraction, digits: int = 12) -> Fraction:
     """Round a positive Fraction to `digits` significant decimal digits (keeps descriptions short)."""
     if x == 0:
         return x
-    e = mpmath.floor(mpmath.log10(_mp(abs(x))))
+    e = MPX.floor(MPX.log10(_mp(abs(x))))
     shift = int(digits - 1 - int(e))
     scaled = x * Fraction(10)**shift
     n = int(scaled + Fraction(1, 2)) if scaled > 0 else -int(-scaled + Fraction(1, 2))
@@ -239,7 +241,7 @@ def classify(l: tuple[Fraction, Fraction], r: tuple[Fraction, Fraction], rel: Fr
     """Band of a pair of SI values. Returns {"band": pass|fail|strip|discard, "parts": {...}, "near": bool}."""
     lre, lim, rre, rim = (_mp(x) for x in (*l, *r))
     relm = _mp(rel)
-    lmod, rmod = mpmath.hypot(lre, lim), mpmath.hypot(rre, rim)
+    lmod, rmod = MPX.hypot(lre, lim), MPX.hypot(rre, rim)
     mmod = max(lmod, rmod)
     if ab is None:
         abs_lo = abs_hi = None
@@ -415,8 +417,8 @@ def judge_pair(case: dict[str, Any]) -> tuple[list[tuple[str, str]], list[str], 
 
     def explain() -> str:
         ps = c["parts"]
-        return "; ".join(f"{n}: D={mpmath.nstr(ps[n]['D'], 12)} must-fail>{mpmath.nstr(ps[n]['fail_thr'], 12)} "
-            f"must-pass<={mpmath.nstr(ps[n]['pass_thr'], 12)}" for n in ("re", "im") if cplx or n == "re")
+        return "; ".join(f"{n}: D={MPX.nstr(ps[n]['D'], 12)} must-fail>{MPX.nstr(ps[n]['fail_thr'], 12)} "
+            f"must-pass<={MPX.nstr(ps[n]['pass_thr'], 12)}" for n in ("re", "im") if cplx or n == "re")
 
     for name, oc in outcomes.items():
         if oc.startswith("refuse"):
@@ -560,7 +562,7 @@ def judge_numbers(case: dict[str, Any]) -> tuple[list[tuple[str, str]], list[str
     oc = _outcome(lambda: approx_equal_numbers(lf, rf, **kw))
     desc = f"approx_equal_numbers({lf!r}, {rf!r}, {kw})"
     p = c["parts"]["re"]
-    ex = f"D={mpmath.nstr(p['D'], 12)} must-fail>{mpmath.nstr(p['fail_thr'], 12)} must-pass<={mpmath.nstr(p['pass_thr'], 12)}"
+    ex = f"D={MPX.nstr(p['D'], 12)} must-fail>{MPX.nstr(p['fail_thr'], 12)} must-pass<={MPX.nstr(p['pass_thr'], 12)}"
     if oc.startswith(("error", "refuse")):
         out.append(("unexpected-exception:" + oc.split(":")[1], f"{desc} -> {oc}"))
     elif c["band"] == "fail" and oc == "pass":
@@ -689,7 +691,7 @@ _FAR = st.builds(lambda m, e: Fraction(m) * Fraction(10)**e, st.integers(3, 9), 
 @st.composite
 def anchor_st(draw: Any) -> Fraction:
     m = draw(st.sampled_from([1, 2, 5, 3, 7]) | st.integers(1, 9999))
-    e = draw(st.integers(-12, 9))
+    e = draw(st.one_of(st.integers(-12, 9), st.integers(-12, 9), st.integers(-36, -13), st.integers(10, 30)))
     s = draw(st.sampled_from([1, 1, -1]))
     return s * Fraction(m) * Fraction(10)**e * (Fraction(1, 1000) if m > 9 else 1)
 
@@ -716,7 +718,7 @@ def _mp_to_fraction(x: Any, digits: int = 12) -> Fraction:
     """mpf -> Fraction rounded to `digits` significant decimal digits (keeps descriptions short)."""
     if x == 0:
         return Fraction(0)
-    return Fraction(mpmath.nstr(x, digits, strip_zeros=False, min_fixed=1, max_fixed=0))
+    return Fraction(MPX.nstr(x, digits, strip_zeros=False, min_fixed=1, max_fixed=0))
 
 
 def _thresholds(other_part: Fraction, rel: Fraction, ab: Fraction | None, mass_exp: int, target: str) -> Any:
@@ -732,7 +734,7 @@ def _thresholds(other_part: Fraction, rel: Fraction, ab: Fraction | None, mass_e
     def thr(mp_: Any) -> Any:
         if target == "P":
             return abs_lo if abs_lo is not None else relm * mp_
-        return max(abs_hi if abs_hi is not None else mpmath.mpf(0), relm * mpmath.hypot(mp_, om))
+        return max(abs_hi if abs_hi is not None else MPX.mpf(0), relm * MPX.hypot(mp_, om))
 
     return thr
 
@@ -750,7 +752,7 @@ def _perturb(m: Fraction, other_part: Fraction, rel: Fraction, ab: Fraction | No
     delta = km * thr(am)
     for _ in range(200):
         new = km * thr(am + delta)
-        done = abs(new - delta) <= delta * mpmath.mpf(10)**-20
+        done = abs(new - delta) <= delta * MPX.mpf(10)**-20
         delta = new
         if done:
             break
